@@ -142,6 +142,8 @@
         r.1 == (if old(self).instances@.contains_key(key_of(instance)) && old(self).instances@[key_of(instance)].client_id@.len() > 0   // @C12
                     && final(self).instances@[key_of(instance)].client_id@ != old(self).instances@[key_of(instance)].client_id@
                 { Some(old(self).instances@[key_of(instance)].client_id) } else { None }),
+        // the change tag: New exactly for an address that was not registered, otherwise a value / time update
+        (r.0 is New <==> !old(self).instances@.contains_key(key_of(instance))), r.0 is New || r.0 is UpdateValue || r.0 is UpdateTime,   // @C11
         final(self).instances@[key_of(instance)].last_modified_millis == instance.last_modified_millis,   // @C13
         // C13: a heart-beating HTTP instance is (re)armed on the health clock at its heartbeat time
         (timeout_enabled(*final(self).instances@[key_of(instance)]) && !from_sync) ==>   // @C13
